@@ -31,6 +31,7 @@ type injector struct {
 	begins  int      // Begin(true) calls since reset
 	commits int
 	hook    func(kind string) // called before every store call (perturbation / gates)
+	keylog  func(kind string, key []byte) // records the key of every get / set / delete / item
 }
 
 func (in *injector) reset() {
@@ -99,7 +100,14 @@ type wTx struct {
 	dead  bool
 }
 
+func (in *injector) logKey(kind string, key []byte) {
+	if in.keylog != nil {
+		in.keylog(kind, append([]byte(nil), key...))
+	}
+}
+
 func (t *wTx) Set(key, value []byte) error {
+	t.in.logKey("set", key)
 	if t.in.step("set") {
 		return errInjected
 	}
@@ -107,6 +115,7 @@ func (t *wTx) Set(key, value []byte) error {
 }
 
 func (t *wTx) Get(key []byte) ([]byte, error) {
+	t.in.logKey("get", key)
 	if t.in.step("get") {
 		return nil, errInjected
 	}
@@ -114,6 +123,7 @@ func (t *wTx) Get(key []byte) ([]byte, error) {
 }
 
 func (t *wTx) Delete(key []byte) error {
+	t.in.logKey("delete", key)
 	if t.in.step("delete") {
 		return errInjected
 	}
@@ -161,7 +171,11 @@ func (c *wCursor) Item() (store.Item, error) {
 	if c.in.step("item") {
 		return store.Item{}, errInjected
 	}
-	return c.inner.Item()
+	it, err := c.inner.Item()
+	if err == nil {
+		c.in.logKey("item", it.Key)
+	}
+	return it, err
 }
 
 // perturb returns a hook that yields or sleeps briefly at every store call.
